@@ -210,6 +210,18 @@ Proj(r, ik) == IF ik = "upd" /\ OnlyCare /\ r # Absent THEN [w |-> r.w, u |-> 0]
 \* undo one image on table d: "ok" with the new table, "skip" (already before), or "dirty"
 UndoOne(d, im) ==
   LET cur == d[im.k] IN
+  IF ~Validate
+  THEN \* validation off (configuration): the compensating statement runs blindly and does what SQL does
+       CASE im.kind = "ins" -> [res |-> "ok", d |-> [d EXCEPT ![im.k] = Absent]]           \* DELETE by key
+         [] im.kind = "del" -> \* INSERT of the before image: a row that is there again is a duplicate key
+                               IF cur = Absent THEN [res |-> "ok", d |-> [d EXCEPT ![im.k] = im.before]]
+                               ELSE [res |-> "dirty", d |-> d]
+         [] OTHER -> \* UPDATE by key: matches nothing when the row is gone
+                     IF cur = Absent THEN [res |-> "skip", d |-> d]
+                     ELSE [res |-> "ok",
+                           d |-> [d EXCEPT ![im.k] = IF im.kind = "upd" /\ OnlyCare
+                                                     THEN Row(im.before.w, cur.u) ELSE im.before]]
+  ELSE
   IF Proj(im.before, im.kind) = Proj(im.after, im.kind)
   THEN \* the statement did not change this row: nothing to restore, nothing to protect
        [res |-> "skip", d |-> d]
@@ -219,11 +231,7 @@ UndoOne(d, im) ==
         d |-> [d EXCEPT ![im.k] = IF im.kind = "upd" /\ OnlyCare /\ cur # Absent
                                   THEN Row(im.before.w, cur.u) ELSE im.before]]
   ELSE IF Proj(cur, im.kind) = Proj(im.before, im.kind) THEN [res |-> "skip", d |-> d]
-  ELSE IF Validate THEN [res |-> "dirty", d |-> d]
-  ELSE \* validation off: compensate blindly
-       [res |-> "ok",
-        d |-> [d EXCEPT ![im.k] = IF im.kind = "upd" /\ OnlyCare /\ cur # Absent
-                                  THEN Row(im.before.w, cur.u) ELSE im.before]]
+  ELSE [res |-> "dirty", d |-> d]
 
 \* undo all images of a branch, last statement first; marks = the (statement, result) pairs met
 RECURSIVE UndoAll(_, _)
